@@ -124,6 +124,21 @@ CHECKS.update({
     ),
 })
 
+CHECKS.update({
+    "C08": (
+        "oracle over every Evaluation returned by sound_event_detection on spec-generated inputs: clip set, per-event accounting, overlap / affinity by re-invoking compute_affinity, class probability recomputed from the spec's tags, means; C07 monitor ambient on the task's match_geometries calls; C04 invariant walker on the result",
+        "Every detection result observed evaluates exactly the common clips, puts every sound event (with or without geometry) in exactly one match, pairs only overlapping geometries and reports affinity / score / means as stated; two mechanisms are open known findings.",
+        "Vocabularies >= 2 tags, >= 1 evaluated sound event; dyadic scores; tolerances 1e-9 (affinity, means) and 1e-6 (float32 scores).",
+        "DESIGN.md §4 C08",
+    ),
+    "C09": (
+        "numpy-only re-implementation of every metric selected by its term (interval-valued under score ties), truths and scores re-derived from the spec's tags; relational re-invocation with permuted clips; AOEF save/load of the result compared metric by metric",
+        "Every metric list observed in the four tasks has distinct terms and values equal to the independent re-computation; scores aggregate as means; permuting clips and an AOEF round trip leave every metric intact.",
+        "Undefined metrics (no positive, empty union) and tie-dependent argmax outcomes are not judged beyond their interval; single-tag vocabularies and all-unlabelled detection are open known findings.",
+        "DESIGN.md §4 C09",
+    ),
+})
+
 NOT_YET = {}
 
 
